@@ -150,7 +150,7 @@ Section Facts.
   Proof.
     destruct acc as [s out]. intros G Hok. pose proof G as [Hh [Hf Ho]]. simpl in Hh, Hf, Ho.
     unfold Cache.stepacc. simpl fst. simpl snd.
-    destruct o as [f|dt|p|g]; simpl.
+    destruct o as [f|dt|p|q|g]; simpl.
     - (* Mutate *)
       split; [|split]; simpl.
       + exists (now s), (hist s). split; [reflexivity|simpl; lia].
@@ -184,6 +184,8 @@ Section Facts.
         * split; [exact Hh|]. split.
           -- now apply file_ok_cons.
           -- simpl. split; [|exact Ho]. split; [simpl; lia|exact I].
+    - (* Probe: nothing changes *)
+      exact G.
     - (* Damage: the new content does not decode *)
       simpl in Hok. split; [|split]; simpl.
       + exact Hh.
@@ -269,7 +271,7 @@ Section Facts.
 
   Lemma repaired_step_no_crash (s : state) (o : op) r : snd (step true s o) = Some r -> forall p, r <> Crashed p.
   Proof.
-    destruct o as [f|dt|p|g]; simpl; try discriminate.
+    destruct o as [f|dt|p|q|g]; simpl; try discriminate.
     unfold Cache.do_list. destruct (loadcache s); simpl; intros H q; injection H as <-; discriminate.
   Qed.
 
@@ -293,7 +295,7 @@ Section Facts.
     wellformed s -> no_damage o ->
     wellformed (fst (step false s o)) /\ forall r, snd (step false s o) = Some r -> forall p, r <> Crashed p.
   Proof.
-    intros W N. destruct o as [f|dt|p|g]; simpl in *; try (split; [exact W|discriminate]); [|tauto].
+    intros W N. destruct o as [f|dt|p|q|g]; simpl in *; try (split; [exact W|discriminate]); [|tauto].
     unfold Cache.do_list, Cache.loadcache. destruct (file s) as [[b g]|] eqn:Ef.
     - destruct (fresh life (now s) b).
       + destruct (W b g Ef) as [l ->]. rewrite roundtrip. simpl. split.
